@@ -287,6 +287,7 @@ def run(ctx):
     from . import system_common as sysc
     sessions, sverdict = sysc.run_sessions(ctx, 300 if ctx.quick else 5000, ctx.seed + 17, tosm_bias=True)
     sysc.judge(ctx, "C17", sessions, sverdict, sysc.TOSM_OPS, "conversion to SM inside a session")
+    sysc.mc_for(ctx, "C17")          # MC_System: bounded model of whole sessions, every transition replayed on the library
     ctx.notes["sessions_with_a_tosm_event"] = sum(1 for s_ in sessions if any(e["op"] == "tosm" for e in s_["events"]))
     ctx.notes["c2s_calls"] = len(recs)
     ctx.sample({"c2s": {"source": cv.show(recs[1]["src"]), "behaviours": recs[1]["beh"], "outcome": recs[1]["st"], "named": recs[1]["key"]}})
